@@ -56,6 +56,7 @@ def run(tier, seed):
                  gw={"water_table": "Y", "method": "Variable", "dates": ["2004/04/20", "2004/06/10", "2004/08/01", "2005/09/15"], "values": [2.2, 1.4, 1.0, 1.9]})}
     # instance 1's objects rely on the constructors' defaults wherever it can (defaults are shared by every later object of the class)
     cfgs[1]["iwc"] = {}
+    cfgs[1]["crop"] = dict(cfgs[1]["crop"], kw={"SwitchGDD": 1})
     # configurations the model rejects, built from constructor defaults + one argument (Reject action of the specification)
     cfgs[8] = dict(S("Wheat", seed=seed + 1, soil_spec=sandy), gw={"water_table": "Y"})
     cfgs[9] = dict(S("Wheat", seed=seed + 1, soil_spec=loamy), iwc={"depth_layer": [1, 2]})
@@ -63,6 +64,9 @@ def run(tier, seed):
     rnd.shuffle(hs)
     # only histories in which at least one instance has been stepped
     hs = [h for h in hs if any(o["op"] in ("step", "finish") for o in h)]
+    # (histories with a re-run first: they are few among all interleavings)
+    rer = [h for h in hs if any(o["op"] == "rerun" for o in h)]
+    hs = rer[: (12 if tier != "thorough" else 80)] + [h for h in hs if not any(o["op"] == "rerun" for o in h)]
     nh = 300 if tier == "thorough" else 36
     jobs, pairs = [], []
     # in the code one abstract "day unit" of the model is 40 simulated days (Horizon 6 -> finish)
@@ -75,6 +79,8 @@ def run(tier, seed):
                 ops.append({"op": o["op"], "i": o["i"], "c": o["c"]})
             elif o["op"] == "step":
                 ops.append({"op": "step", "i": o["i"], "k": o["k"] * UNIT})
+            elif o["op"] == "rerun":
+                ops.append({"op": "rerun", "i": o["i"]})
             else:
                 ops.append({"op": "finish", "i": o["i"]})
         for target in sorted({o["i"] for o in h if o["op"] in ("step", "finish")}):
@@ -83,6 +89,8 @@ def run(tier, seed):
             last_new = max(i for i, o in enumerate(own) if o["op"] == "new")
             own = own[last_new:]
             c = own[0]["c"]
+            if any(o["op"] == "rerun" for o in own):
+                own = [own[0], {"op": "finish", "i": target}]          # after a re-run the instance holds the result of a fresh run to termination
             slices = [0 if o["op"] == "finish" else o["k"] for o in own[1:]]
             if not slices:
                 continue
